@@ -355,7 +355,7 @@ def run_file_cvals(ctx, desc):
     if not desc.get("mapped"):
         return
     # mapped user-defined controllers of a MetaModule
-    targets = [("Amplifier", "balance"), ("Amplifier", "volume"), ("Amplifier", "bipolar_dc_offset"), ("Generator", "panning"), ("Lfo", "amplitude"), ("MultiSynth", "transpose"), ("MultiSynth", "random_phase")]
+    targets = [("Amplifier", "balance"), ("Amplifier", "volume"), ("Amplifier", "bipolar_dc_offset"), ("Generator", "panning"), ("Lfo", "amplitude"), ("MultiSynth", "transpose"), ("MultiSynth", "random_phase"), ("VorbisPlayer", "finetune"), ("VorbisPlayer", "transpose")]
     for tname, cname in targets:
         tc = spec[tname].ctl(cname)
         tcls = classes[spec[tname].mtype]
@@ -368,7 +368,7 @@ def run_file_cvals(ctx, desc):
                 mm.mappings.values[0] = mm.Mapping((1, ci))
                 mm.user_defined_controllers = 1
                 mm.update_user_defined_controllers()
-                want = expected_raw("range", tc.min, v)
+                want = expected_raw(tc.kind, tc.min, v)
                 mm.set_raw("user_defined_1", want)  # the value arrives as a stored value, the embedded controller keeps its own
                 rec = {"entity": "MetaModule.user_defined_1->%s.%s" % (tname, cname), "value": v, "path": path}
                 held = mm.user_defined_1
